@@ -1,8 +1,9 @@
 #!/bin/bash
-# usage: process_refactors.sh <SRC dir> <prop>...   validates, imports as seeded/<prop>-r<k> (kind refactor) and runs every check on each
+# usage: [WTROOT=/tmp/wt6 TAG=s FROZEN=/tmp/verif-r6] process_refactors.sh <SRC dir> <prop>...   validates in the agents' worktrees, imports as
+# seeded/<prop>-<TAG><k> (kind refactor; TAG r = first wave, s = second wave), records the first evaluation with the frozen checks (if given) and runs every check on each
 src=$1; shift
 (for p in "$@"; do echo $p; done) | xargs -P 10 -L 1 bash -c '/verif/tools/validate_refactor.sh '$src' $0 2>/dev/null | grep "^R"' >> $src/validation.txt
-/venv/bin/python - "$src" "$@" <<'PY'
+TAG=${TAG:-r} /venv/bin/python - "$src" "$@" <<'PY'
 import json, os, re, shutil, subprocess, sys
 src, props = sys.argv[1], sys.argv[2:]
 val = {}
@@ -17,7 +18,7 @@ for (p, k), v in sorted(val.items()):
     sd = '%s/%s/m%s' % (src, p, k)
     if not (v['c1'] == 0 and v['c2'] == 0 and v['same'] == 1 and v['missing'] == 0):
         print('SKIP', p, k, v); continue
-    dst = '/verif/seeded/%s-r%s' % (p, k)
+    dst = '/verif/seeded/%s-%s%s' % (p, os.environ.get('TAG', 'r'), k)
     os.makedirs(dst, exist_ok=True)
     shutil.copy(sd + '/patch.rebased.diff', dst + '/patch.diff')
     shutil.copy(sd + '/demo.py', dst + '/demo.py')
@@ -26,7 +27,7 @@ for (p, k), v in sorted(val.items()):
     except Exception:
         meta = {}
     old = json.load(open(dst + '/meta.json')) if os.path.exists(dst + '/meta.json') else {}
-    meta.update(dict(property=p, wave='refactor', kind='refactor', origin='independent sub-agent asked for a behaviour-preserving refactoring (only the property text and a scratch worktree)',
+    meta.update(dict(property=p, wave='refactor' if os.environ.get('TAG', 'r') == 'r' else 'refactor2', kind='refactor', origin='independent sub-agent asked for a behaviour-preserving refactoring (only the property text and a scratch worktree)',
                      validated=dict(repo_head=head, patch_applied_with='git ' + v['how'], demo_output_identical=True,
                                     pinned_suite='%d tests pass with the patch; all 145 stable_pass tests still pass' % v['passed'])))
     for key in old:
@@ -35,5 +36,6 @@ for (p, k), v in sorted(val.items()):
     json.dump(meta, open(dst + '/meta.json', 'w'), indent=1)
     print('imported', p, k)
 PY
-pre=""; for p in "$@"; do pre="$pre $p-r"; done
+pre=""; for p in "$@"; do pre="$pre $p-${TAG:-r}"; done
+if [ -n "$FROZEN" ]; then /verif/tools/sweep_seeds.py --checks-at $FROZEN --key reported_by_initial $pre | tail -1; fi
 /verif/tools/sweep_seeds.py --key reported_by $pre
